@@ -9,7 +9,8 @@ Alphabet == { Note4c, Bar1, L("clef", <<42, 99, 108, 101, 102, 71, 50>>), L("nul
               L("err", <<85, 52, 99>>),        \* U4c   unknown character
               L("err", <<99, 52>>),            \* c4    wrong order
               L("err", <<52>>),                \* 4     truncated
-              L("err", <<52, 85, 99>>) }       \* 4Uc   inner garbage
+              L("err", <<52, 85, 99>>),        \* 4Uc   inner garbage
+              L("err", <<52, 99, 167>>) }      \* 4c§   a character the lexer does not know (a lexer error, not a parser error)
 KernTypes == {HKern}
 AllTypes == {HKern, HRoot, HText, HDynam, HHarm, HMxhm, HFing, <<42, 42, 122, 122>>}
 Init == IHInit(Types)
